@@ -92,7 +92,8 @@ class Ctx:
         """Record a violation. params must be JSON-serialisable and sufficient for replay()."""
         self.violations.append(
             {"mechanism": mechanism, "message": str(message)[:2000], "params": params,
-             "hashseed": os.environ.get("PYTHONHASHSEED", ""), "optimize": int(sys.flags.optimize)}
+             "hashseed": os.environ.get("PYTHONHASHSEED", ""), "optimize": int(sys.flags.optimize),
+             "werror": int(any(str(o).startswith("error") for o in sys.warnoptions))}
         )
         if self.replaying:
             return
@@ -149,6 +150,9 @@ def worker_main(prop, tier, seed, worker, nworkers, out):
     assert_repo()
     mod = load_module(prop)
     ctx = Ctx(prop, tier, seed, worker, nworkers)
+    from vf import common as _common
+
+    _common.quiet_logging()  # (one worker in three: library logger at DEBUG with a formatting handler)
     t0 = time.time()
     status = "ok"
     err = None
@@ -212,7 +216,7 @@ def drive(prop, tier, seed):
         cmd = [
             sys.executable,
             "-B",
-        ] + (["-O"] if w % 4 == 3 else []) + [
+        ] + (["-O"] if w % 4 == 3 else []) + (["-W", "error"] if w % 4 == 2 else []) + [  # (w%4==2: warnings raise)
             os.path.join(VERIF_DIR, "check.py"),
             prop,
             "--tier",
@@ -381,6 +385,7 @@ def drive(prop, tier, seed):
                         "seed": seed,
                         "hashseed": v.get("hashseed", ""),
                         "optimize": v.get("optimize", 0),
+                        "werror": v.get("werror", 0),
                     },
                     f,
                     indent=1,
@@ -410,13 +415,15 @@ def replay(prop, path):
         rep = json.load(f)
     hs = str(rep.get("hashseed", ""))
     opt = int(rep.get("optimize", 0) or 0)
+    werr = int(rep.get("werror", 0) or 0)
     if os.environ.get("VERIF_REEXEC") != "1" and (
-            (hs and os.environ.get("PYTHONHASHSEED", "") != hs) or opt != int(sys.flags.optimize)):
+            (hs and os.environ.get("PYTHONHASHSEED", "") != hs) or opt != int(sys.flags.optimize) or werr):
         # reproduce under the same string-hash seed and interpreter mode as the worker that observed the violation
         env = dict(os.environ, VERIF_REEXEC="1")
         if hs:
             env["PYTHONHASHSEED"] = hs
-        return subprocess.call([sys.executable, "-B"] + (["-O"] if opt else []) + sys.argv, env=env)
+        return subprocess.call([sys.executable, "-B"] + (["-O"] if opt else []) + (["-W", "error"] if werr else [])
+                               + sys.argv, env=env)
     ctx = Ctx(prop, rep.get("tier", "quick"), rep.get("seed", 0), 0, 1, replaying=True)
     mod.replay(ctx, rep["params"])
     if ctx.violations:
